@@ -4,6 +4,8 @@ import (
 	"bytes"
 	"encoding/binary"
 	"fmt"
+	beaconmod "github.com/unification-com/mainchain/x/beacon"
+	wrkchainmod "github.com/unification-com/mainchain/x/wrkchain"
 	"sort"
 
 	sdk "github.com/cosmos/cosmos-sdk/types"
@@ -242,11 +244,20 @@ func c18RoundTrips(bad func(kind, f string, a ...any)) int {
 	ctx, _ := w.Ctx().CacheContext()
 	ek, wk, bk, sk := w.App.EnterpriseKeeper, w.App.WrkchainKeeper, w.App.BeaconKeeper, w.App.StreamKeeper
 	// numeric ids: orders, chains, beacons, blocks, timestamps, limits
-	for _, id := range c18IDs {
-		must(ek.SetPurchaseOrder(ctx, enttypes.EnterpriseUndPurchaseOrder{Id: id, Purchaser: w.Bech("A"), Amount: sdk.NewInt64Coin(mc.Nund, int64(id%1000)+1), Status: enttypes.StatusRaised}))
-		must(wk.SetWrkChain(ctx, wrkchaintypes.WrkChain{WrkchainId: id, Moniker: fmt.Sprint("c", id), Owner: w.Bech("A")}))
+	for i, id := range c18IDs {
+		po := enttypes.EnterpriseUndPurchaseOrder{Id: id, Purchaser: w.Bech("A"), Amount: sdk.NewInt64Coin(mc.Nund, int64(id%1000)+1), Status: enttypes.StatusRaised}
+		wc := wrkchaintypes.WrkChain{WrkchainId: id, Moniker: fmt.Sprint("c", id), Owner: w.Bech("A")}
+		bc := beacontypes.Beacon{BeaconId: id, Moniker: fmt.Sprint("b", id), Owner: w.Bech("A")}
+		if i%2 == 0 { // every second entity has its optional fields and counters set, the others leave them empty / zero
+			po.RaiseTime, po.CompletionTime = 1_700_000_000+uint64(i), 1_700_000_100+uint64(i)
+			po.Decisions = enttypes.PurchaseOrderDecisions{{Signer: w.Bech("A"), Decision: enttypes.StatusAccepted, DecisionTime: 1_700_000_050}}
+			wc.Name, wc.Genesis, wc.Type, wc.Lastblock, wc.NumBlocks, wc.LowestHeight, wc.RegTime = fmt.Sprint("Chain ", id), fmt.Sprint("0xgen", id), "geth", 500+uint64(i), 5, 100, 1_700_000_000
+			bc.Name, bc.LastTimestampId, bc.FirstIdInState, bc.NumInState, bc.RegTime = fmt.Sprint("Beacon ", id), 40+uint64(i), 30, 10, 1_700_000_000
+		}
+		must(ek.SetPurchaseOrder(ctx, po))
+		must(wk.SetWrkChain(ctx, wc))
 		must(wk.SetWrkChainStorageLimit(ctx, id, id%7+1))
-		must(bk.SetBeacon(ctx, beacontypes.Beacon{BeaconId: id, Moniker: fmt.Sprint("b", id), Owner: w.Bech("A")}))
+		must(bk.SetBeacon(ctx, bc))
 		must(bk.SetBeaconStorageLimit(ctx, id, id%5+1))
 		for _, h := range c18IDs {
 			must(wk.SetWrkChainBlock(ctx, id, wrkchaintypes.WrkChainBlock{Height: h, Blockhash: fmt.Sprintf("%d/%d", id, h)}))
@@ -297,21 +308,32 @@ func c18RoundTrips(bad func(kind, f string, a ...any)) int {
 			bad("listing", "%s listed as %v", name, ids)
 		}
 	}
+	// listings: ascending, and every listed entity is exactly what its point read returns
 	var ids []uint64
 	for _, po := range ek.GetAllPurchaseOrders(ctx) {
 		ids = append(ids, po.Id)
+		if one, ok := ek.GetPurchaseOrder(ctx, po.Id); !ok || !protoEq(&one, &po) {
+			bad("listing", "purchase order %d is listed as %+v but reads as %+v", po.Id, po, one)
+		}
 	}
 	asc("purchase orders", ids)
 	ids = nil
 	for _, c := range wk.GetAllWrkChains(ctx) {
 		ids = append(ids, c.WrkchainId)
+		if one, ok := wk.GetWrkChain(ctx, c.WrkchainId); !ok || one != c {
+			bad("listing", "wrkchain %d is listed as %+v but reads as %+v", c.WrkchainId, c, one)
+		}
 	}
 	asc("wrkchains", ids)
 	ids = nil
 	for _, c := range bk.GetAllBeacons(ctx) {
 		ids = append(ids, c.BeaconId)
+		if one, ok := bk.GetBeacon(ctx, c.BeaconId); !ok || one != c {
+			bad("listing", "beacon %d is listed as %+v but reads as %+v", c.BeaconId, c, one)
+		}
 	}
 	asc("beacons", ids)
+	n += c18Import(w, bad)
 	// delete one block and one timestamp: neighbours unaffected
 	for _, id := range c18IDs {
 		store := ctx.KVStore(w.App.GetKey(wrkchaintypes.StoreKey))
@@ -438,6 +460,64 @@ func c18RoundTrips(bad func(kind, f string, a ...any)) int {
 		}
 	}
 	_ = binary.BigEndian
+	return n
+}
+
+// c18Import: the write path of genesis import - every module's InitGenesis is given three entities with
+// three records each on a scratch context; every one of them must read back as written.
+func c18Import(w *mc.World, bad func(kind, f string, a ...any)) int {
+	n := 0
+	ctx, _ := w.Ctx().CacheContext()
+	guard := func(what string, f func()) {
+		defer func() {
+			if p := recover(); p != nil {
+				bad("import", "%s panics: %v", what, firstLine(fmt.Sprint(p)))
+			}
+		}()
+		f()
+	}
+	owner := w.Bech("A")
+	ids := []uint64{1, 2, 255, 256, 1 << 32}
+	guard("beacon InitGenesis", func() {
+		gs := beacontypes.GenesisState{Params: w.App.BeaconKeeper.GetParams(ctx), StartingBeaconId: 1 << 33}
+		for _, id := range ids {
+			ex := beacontypes.BeaconExport{Beacon: beacontypes.Beacon{BeaconId: id, Moniker: fmt.Sprint("b", id), Owner: owner, LastTimestampId: 3, FirstIdInState: 1, NumInState: 3}, InStateLimit: 5}
+			for t := uint64(1); t <= 3; t++ {
+				ex.Timestamps = append(ex.Timestamps, beacontypes.BeaconTimestampGenesisExport{Id: t, T: 1_600_000_000 + t, H: fmt.Sprintf("%d/%d", id, t)})
+			}
+			gs.RegisteredBeacons = append(gs.RegisteredBeacons, ex)
+		}
+		beaconmod.InitGenesis(ctx, w.App.BeaconKeeper, gs)
+		for _, id := range ids {
+			for t := uint64(1); t <= 3; t++ {
+				n++
+				ts, found := w.App.BeaconKeeper.GetBeaconTimestampByID(ctx, id, t)
+				if !found || ts.Hash != fmt.Sprintf("%d/%d", id, t) || ts.TimestampId != t {
+					bad("import", "timestamp %d of imported beacon %d reads back as %+v (found %v)", t, id, ts, found)
+				}
+			}
+		}
+	})
+	guard("wrkchain InitGenesis", func() {
+		gs := wrkchaintypes.GenesisState{Params: w.App.WrkchainKeeper.GetParams(ctx), StartingWrkchainId: 1 << 33}
+		for _, id := range ids {
+			ex := wrkchaintypes.WrkChainExport{Wrkchain: wrkchaintypes.WrkChain{WrkchainId: id, Moniker: fmt.Sprint("c", id), Type: "t", Owner: owner, Lastblock: 3, NumBlocks: 3, LowestHeight: 1}, InStateLimit: 5}
+			for h := uint64(1); h <= 3; h++ {
+				ex.Blocks = append(ex.Blocks, wrkchaintypes.WrkChainBlockGenesisExport{He: h, Bh: fmt.Sprintf("%d/%d", id, h), St: 1_600_000_000 + h})
+			}
+			gs.RegisteredWrkchains = append(gs.RegisteredWrkchains, ex)
+		}
+		wrkchainmod.InitGenesis(ctx, w.App.WrkchainKeeper, gs)
+		for _, id := range ids {
+			for h := uint64(1); h <= 3; h++ {
+				n++
+				b, ok := w.App.WrkchainKeeper.GetWrkChainBlock(ctx, id, h)
+				if !ok || b.Blockhash != fmt.Sprintf("%d/%d", id, h) || b.Height != h {
+					bad("import", "block %d of imported wrkchain %d reads back as %+v (found %v)", h, id, b, ok)
+				}
+			}
+		}
+	})
 	return n
 }
 
